@@ -36,6 +36,10 @@ SKELETONS["exitloop"] = (2, [(0, 1, None), (1, 1, ("c", 0))], 0, 1)
 SKELETONS["longarm_a"] = (6, [(0, 1, ("c", 0)), (0, 4, ("n", 0)), (1, 2, None), (2, 3, None), (3, 5, None), (4, 5, None)], 0, 5)
 SKELETONS["longarm_b"] = (6, [(0, 1, ("c", 0)), (0, 2, ("n", 0)), (1, 5, None), (2, 3, None), (3, 4, None), (4, 5, None)], 0, 5)
 SKELETONS["loop_or_block"] = (6, [(0, 1, ("c", 0)), (0, 2, ("n", 0)), (1, 5, None), (2, 3, None), (3, 4, ("c", 1)), (3, 5, ("n", 1)), (4, 3, None)], 0, 5)
+# dead blocks (unreachable from the entry) that jump into live code, with block indices BELOW those of live predecessors
+SKELETONS["unreachable_pred_low"] = (4, [(0, 2, None), (2, 3, None), (1, 3, None)], 0, 3)
+SKELETONS["unreachable_pred_mid"] = (6, [(0, 3, ("c", 0)), (0, 4, ("n", 0)), (3, 5, None), (4, 5, None), (1, 5, None), (2, 4, None)], 0, 5)
+SKELETONS["unreachable_loop_low"] = (5, [(0, 3, None), (3, 4, ("c", 0)), (3, 3, ("n", 0)), (1, 3, None), (2, 1, None)], 0, 4)
 EMPTY_BLOCKS = {"emptyarms": {1, 2}}
 
 
